@@ -815,7 +815,7 @@ func runC13(tier, replay string) int {
 		if err := c13SelfVerdict(live, selfGot); err != nil {
 			c.BrokenF("self-test of PassTrace.tla: %v", err)
 		} else {
-			c.Cov["selftest_faults_detected"] = 3
+			c.Cov["selftest_faults_detected"] = 5
 		}
 	}
 	phase("traces validated")
@@ -910,14 +910,15 @@ fn main() {
 }
 `
 
-// c13SelfArts builds the self-test artefacts of PassTrace.tla: the same fixed program four times, without fault and with
-// each seeded fault.  They ride along in the first trace shard of every run; c13SelfVerdict judges them.
+// c13SelfArts builds the self-test artefacts of PassTrace.tla: the same fixed program six times, without fault and with
+// each seeded fault (the last two: a call to function handle = number of functions, a call with one argument too many).  They ride along in the first trace shard of every run; c13SelfVerdict judges them.
 func c13SelfArts() ([]*c13Art, error) {
 	type tc struct {
 		faults []string
 		rule   string
 	}
-	tcs := []tc{{nil, ""}, {[]string{"drop-store"}, "Preserves"}, {[]string{"swap-operands"}, "Preserves"}, {[]string{"dangling"}, "StaysWellFormed"}}
+	tcs := []tc{{nil, ""}, {[]string{"drop-store"}, "Preserves"}, {[]string{"swap-operands"}, "Preserves"}, {[]string{"dangling"}, "StaysWellFormed"},
+		{[]string{"bad-call-target"}, "StaysWellFormed"}, {[]string{"bad-call-arity"}, "StaysWellFormed"}}
 	var out []*c13Art
 	for i, t := range tcs {
 		a := &c13Art{Name: fmt.Sprintf("selftest-%d", i), Family: "selftest", Src: c13SelfSrc,
@@ -960,8 +961,8 @@ func c13SelfVerdict(arts []*c13Art, got map[*c13Art][]c13Bad) error {
 			return fmt.Errorf("seeded fault %v is not reported under %s (%d entries)", a.Faults, a.ExpectRule, len(bads))
 		}
 	}
-	if n != 4 {
-		return fmt.Errorf("%d of 4 self-test artefacts were judged", n)
+	if n != 6 {
+		return fmt.Errorf("%d of 6 self-test artefacts were judged", n)
 	}
 	return nil
 }
